@@ -655,9 +655,46 @@ CHECKS = {
 }
 
 
+def self_validation(pid, rep):
+    """Thorough tier: re-run the quick check on scratch copies carrying each catalogued mutant / seeded change of this
+    property (bin/mutants) and record the kill matrix in the evidence.  Informational: it never changes the verdict on
+    the repository (a patch that no longer applies to an edited tree is skipped)."""
+    import json
+    import subprocess
+    import tempfile
+    if os.environ.get("HCHECK_REPO") or os.environ.get("HCHECK_NO_SELFVAL") == "1":
+        return
+    out = tempfile.NamedTemporaryFile(prefix="hcheck-selfval-", suffix=".json", delete=False)
+    out.close()
+    env = dict(os.environ, MUTANTS_OUT=out.name)
+    try:
+        subprocess.run([os.path.join(F.VERIF, "bin", "mutants"), pid, "--jobs", "8"], env=env, stdout=subprocess.DEVNULL,
+                       stderr=subprocess.DEVNULL, timeout=3000)
+        with open(out.name) as fh:
+            res = json.load(fh)
+    except Exception as e:  # noqa
+        rep.note("self-validation did not run: %s" % e)
+        return
+    finally:
+        try:
+            os.unlink(out.name)
+        except OSError:
+            pass
+    matrix = [{"mutant": r["id"], "expect": r["expect"], "result": r["result"], "key": r.get("detail", "")[:160]} for r in res]
+    good = sum(1 for r in res if (r["expect"] == "kill" and r["result"] == "killed") or
+               (r["expect"] == "silent" and r["result"] == "silent") or r["expect"] == "documented-miss")
+    rep.extra["self_validation"] = {"mutants": len(res), "as_expected": good, "matrix": matrix}
+    rep.note("self-validation: %d/%d catalogued mutants / seeded changes of %s behave as expected" % (good, len(res), pid))
+    for r in res:
+        if r["result"] in ("MISSED", "FALSE-ALARM", "killed-other-key"):
+            rep.note("self-validation: %s -> %s %s" % (r["id"], r["result"], r.get("detail", "")[:120]))
+
+
 def run(pid, tier, only_key=None):
     facts = F.load()
     rep = CHECKS[pid](facts, tier)
+    if tier == "thorough" and not only_key:
+        self_validation(pid, rep)
     if only_key:
         hits = [i for i in rep.instances if i["key"] == only_key]
         if not hits:
